@@ -129,10 +129,47 @@ Eval vm_compute in map (fun n => tree_all_reduce (@app Z) (fun r => [r]) n) [%s]
                     fails.append({'what': 'all_reduce with a non-commutative merge (concatenation) on %d ranks returned %s; Tree.tree_all_reduce (the model the fold theorem is about) gives %s' % (n, sorted(map(str, orders[n])), want), 'size': n, 'level': 'model'})
     return n_eval, len(sizes), fails, samples
 
+def subcomm_collectives(seed, tier):
+    """harness/subcoll.cpp: every collective on a reversed and on two split communicators folds that communicator's inputs."""
+    exe, err = compile_sim('subcoll', ['harness/subcoll.cpp'])
+    if exe is None:
+        return 0, [{'what': 'subcoll harness does not compile against the current headers', 'log': (err or '')[-1200:]}]
+    cfgs = [(2, 2), (3, 1), (4, 2), (5, 5)] + ([] if tier == 'quick' else [(6, 2), (7, 1), (8, 4), (1, 1), (8, 2)])
+    fails, n_eval = [], 0
+    for i, (n, ppn) in enumerate(cfgs):
+        r = simrun(exe, n, [], ppn=ppn, seed=seed * 13 + i, policy=['uniform', 'late', 'early'][i % 3], wall=120)
+        if r['verdict'] != 'ok':
+            fails.append({'what': 'collectives on sub-communicators (%d ranks) ended with %s %s' % (n, r['verdict'], r['detail']), 'cmd': r['cmd']}); continue
+        seen = 0
+        for l in r['out']:
+            if not (l.startswith('Z ') and ':' in l):
+                continue
+            h = l.split(':', 1)[0].split()
+            sc, col, crank, wr = int(h[1]), int(h[2]), int(h[3]), int(h[4])
+            members = sorted(range(n), reverse=True) if sc == 0 else [w for w in range(n) if w % 2 == col]     # world ranks in communicator order
+            vals = [100 + 7 * w for w in members]
+            m = len(members)
+            want = {'all_reduce_sum': sum(vals), 'all_reduce_min': min(vals), 'all_reduce_max': max(vals), 'tree_sum': sum(vals), 'sum': sum(vals),
+                    'min': min(vals), 'max': max(vals), 'prefix_sum': sum(vals[:crank]), 'logical_and': 1, 'logical_or': 1,
+                    'bcast_last': vals[-1], 'bcast_vec_first': members[0], 'is_same': int(m == 1)}
+            got = dict(t.split('=') for t in l.split(':', 1)[1].split())
+            seen += 1
+            for k, v in want.items():
+                n_eval += 1
+                if got.get(k) != str(v):
+                    fails.append({'what': '%s on rank %d of a %s communicator of %d ranks (world rank %d of %d) returned %s, the fold over that communicator\'s inputs gives %s' % (
+                                      k, crank, 'reversed' if sc == 0 else 'split', m, wr, n, got.get(k), v), 'cmd': r['cmd']})
+        if seen != 2 * n:
+            fails.append({'what': 'subcoll reported %d of %d lines on %d ranks' % (seen, 2 * n, n), 'cmd': r['cmd']})
+    return n_eval, fails
+
 def run(tier, seed, replay=None):
     sizes = list(range(1, 10)) if tier == 'quick' else list(range(1, 18)) + [24, 31, 32, 33]
     def tie(res):
         n_eval, nsizes, fails, samples = explore(seed, sizes)
+        n_sub, sub_fails = subcomm_collectives(seed, tier)
+        n_eval += n_sub
+        fails = list(fails) + sub_fails
         return {'ok': True, 'msg': None, 'failures': fails, 'validated': n_eval, 'evaluations': n_eval, 'nontrivial': nsizes,
                 'rule': 'communicator sizes %s (powers of two and not) under simmpi; every collective on every rank, every root for bcast; inputs from the seed; distinct sizes counted' % sizes,
                 'samples': samples or [{'sizes': sizes}],
